@@ -57,6 +57,25 @@ prop("C04", "exploration", "instrumented Hal ledger (share/unshare matching, bou
      QRULE + "Oracle events: ledger share/unshare matches (every add/pop), observed.bytes_checked = device-written bytes compared in caller buffers.",
      [stage("checked")], [stage("checked", scale=12000), stage("asan", scale=1500, optional=True), stage("miri", scale=1000, optional=True, timeout=7200)])
 
+prop("C05", "exploration", "spec-predicate monitor on real should_notify() calls (index space enumerated by running) + spin-hook co-simulation of blocking helpers",
+     "(a) one real add sequence and one real should_notify() call per (previous index, new index, device event index) instance, compared with the specification's vring_need_event / NO_NOTIFY flag; "
+     "every new-index value x batch 1..12 (quick) / 1..32 (thorough) x every event index inside the batch is visited, larger batches up to 32768 are sampled across the wrap; "
+     "(b) avail.flags and used_event are read back by the reference device after every set_dev_notify / consumed completion in random histories; "
+     "(c) add_notify_wait_pop runs against serve-on-notify / polling-with-suppression / late devices from the spin hook, where 'device idle and never notified' is decided on logical state.",
+     "Only the direction the property states is asserted in event-idx mode (needed => notify); extra notifications are counted. 'Returns as soon as served' is restated as: no further spin-hook round after the device published the completion. Driver-level blocking helpers (blk/net/console/vsock/sound) are exercised in their own checks with the same spin monitor.",
+     "a case is (i) one sweep instance = (queue size, batch b, event offset k, starting index) with real adds and a real check, keyed per pass by (N,b,k) [each pass = up to 65536 instances covering every index value]; "
+     "(ii) one qcore history with frequent should_notify/set_dev_notify checks; (iii) one blocking-helper co-simulation of 40 checked requests after 0..131072 warm-up requests under one policy. "
+     "Non-trivial: (i) the spec predicate says a notification is needed (observed.eventidx_needed), (ii) at least one real check happened, (iii) every request was served and checked. distinct = distinct pass keys + history hashes + blocking case keys.",
+     [stage("checked")], [stage("checked", scale=4000), stage("release", scale=500), stage("miri", scale=1000, optional=True, timeout=7200)])
+
+prop("C06", "exploration", "ledger + transport-log monitor over the exhaustively enumerated configuration space",
+     "All 3072 configurations (16 sizes x modern/legacy x 8 flag combinations x queue_used T/F x 6 max-size answers) are executed on every run: the arguments of queue_set are checked against the "
+     "specification's sizes/alignments and the instrumented Hal's live-region table (containment, direction, disjointness, zeroed rings, legacy contiguity), refusals must be free of dma_alloc/queue_set, and after light use "
+     "(recycled descriptors, sometimes a chain left outstanding) dropping the queue must return every DMA region exactly once with its original address, pointer and page count.",
+     "Exhaustive over the stated configuration space (coverage.exhaustive = true); the post-creation usage before drop is a small random script. Legacy layout through the real legacy MmioTransport is additionally exercised by C10.",
+     "a case is one configuration (size, layout, indirect, event_idx, access_platform, transport answer to queue_used, transport answer to max_queue_size, queue index); always non-trivial (creation or refusal is reached); distinct by configuration index. All 3072 are run.",
+     [stage("checked")], [stage("checked"), stage("release"), stage("asan", optional=True), stage("miri", optional=True, timeout=7200)])
+
 NOT_YET = {}
 import re
 props = [json.loads(l) for l in open(os.path.join(ROOT, "properties.jsonl"))]
